@@ -357,7 +357,6 @@ func sizeClass(n int) string {
 	}
 }
 
-
 // c01ShortTimeout runs the topology with an agent whose --proxy-timeout is far
 // shorter than the proxy's 30 s long poll and than some backend latencies: the
 // agent then keeps abandoning pending-list polls and re-opening response
